@@ -112,7 +112,7 @@ def parse_mir(path, span_path=None):
     for f in fns:
         f.local_ty[0] = f.ret
         f.last = last_seg(f.name)
-        m = re.search(r'<impl at (src/[\w/]+\.rs):(\d+):', f.name)
+        m = re.search(r'<impl at ([\w/.\-]+\.rs):(\d+):', f.name)
         if m:
             f.line = (m.group(1), int(m.group(2)))
     if span_path:
@@ -129,7 +129,7 @@ def parse_mir(path, span_path=None):
                 # promoted consts belong to the file of their function; resolved below
                 continue
             if want:
-                m = re.search(r' at (src/[\w/]+\.rs):', line)
+                m = re.search(r' at ([\w/.\-]+\.rs):\d+:', line)
                 if m and i < len(fns):
                     fns[i].file = m.group(1)
                     want = False
@@ -352,7 +352,7 @@ def _const(c):
         return ('bytes', parse_str_lit(m.group(1)))
     m = re.search(r'::promoted\[(\d+)\]$', c)
     if m:
-        return ('promoted', int(m.group(1)))
+        return ('promoted', int(m.group(1)), c)
     m = re.match(r'^(-?[\d.]+(?:[eE][-+]?\d+)?)(f32|f64)$', c)
     if m:
         return ('float', float(m.group(1)))
